@@ -243,7 +243,7 @@ Proof.
     destruct (feed_blocks (with_dec vd (mr_state rn)) thd nowd (mr_blocks rd)) as [[v1d t1d] o1d].
     cbn [fst snd app] in *. destruct H1 as [R1 O1].
     split; [exact R1|]. split; [|split; reflexivity].
-    apply Rout_app; [exact O1|]. apply Rout_noclouds; destruct (_ && _); reflexivity.
+    apply Rout_app; [exact O1|]. apply Rout_noclouds; destruct (mr_bad_blkid rn); reflexivity.
   - pose proof (sim_mems_subs nown nowd host (Z.to_nat (if d_n_sub (v_desc vn) =? 0 then 1 else d_n_sub (v_desc vn))) 0 vn vd thn thd b false HR) as H1.
     cbv zeta in H1.
     destruct (mems_subs nown host _ 0 vn thn b false) as [[[[v1n t1n] o1n] retn] bn'].
